@@ -286,7 +286,7 @@ class Interp:
         key = (tuple(f.get_id() for f in qf), cond.get_id())
         cache = self.V.feas_cache
         if key in cache:
-            return cache[key]
+            return cache[key][:2]
         self.stats.feas_checks += 1
         s = z3.Solver()
         s.set("timeout", 1500)
@@ -298,7 +298,9 @@ class Interp:
         s.pop()
         s.add(z3.Not(cond))
         f_ok = s.check() != z3.unsat
-        cache[key] = (t_ok, f_ok)
+        # the keyed terms are stored with the entry: a live AST keeps its id,
+        # so an id in a key can never be re-used by a different term
+        cache[key] = (t_ok, f_ok, qf, cond)
         return t_ok, f_ok
 
     def add_pc_checked(self, f):
@@ -1369,6 +1371,8 @@ class Interp:
             return self.V.lib.construct(self, callee, args, kwargs)
         if isinstance(callee, self.V.lib.FuncVal):
             return callee.apply(self, args[0])
+        if isinstance(callee, Obj):
+            return self.call_method(callee, "__call__", args, kwargs)
         if isinstance(callee, Opaque):
             # call of an uninspected foreign callable (user callback,
             # timedelta method, ...): result uninspected; the arguments may
@@ -1495,7 +1499,7 @@ class Interp:
             raise Unsupported("inline depth")
         env = {}
         if obj is not None:
-            env[fn.args.args[0].arg] = obj
+            env[(fn.args.posonlyargs + fn.args.args)[0].arg] = obj
         self.bind_params(fn.args, args, kwargs, env, qual,
                          skip_self=obj is not None)
         env["__module__"] = file
@@ -1530,7 +1534,7 @@ class Interp:
         env = {}
         if fn is not None:
             if obj is not None:
-                env[fn.args.args[0].arg] = obj
+                env[(fn.args.posonlyargs + fn.args.args)[0].arg] = obj
             self.bind_params(fn.args, args, kwargs, env, con.func,
                              skip_self=obj is not None)
         else:
@@ -1542,6 +1546,28 @@ class Interp:
             env.update(kwargs)
         env["__module__"] = con.file
         site = f"call:{con.func}@{self.cur_line}"
+        # abstract spaces: a sequence of points of one uninterpreted sort
+        # (data space, latent space, ...) handed to a parameter declared
+        # over another is a definite error (e.g. the transform applied in
+        # the wrong direction)
+        for pname, pty in con.params.items():
+            try:
+                pp = parse_type(pty)
+            except Exception:
+                continue
+            if pp[0] == "Opt":
+                pp = parse_type(pp[1])
+            if pp[0] == "Seq" and parse_type(pp[1])[0] == "Sort":
+                want = parse_type(pp[1])[1]
+                v = env.get(pname)
+                if isinstance(v, OptVal):
+                    v = v.value
+                v = self.unwrap(v) if v is not None else None
+                el = getattr(v, "elem", None)
+                if isinstance(el, str) and el.startswith("Sort(") and \
+                        parse_type(el)[1] != want and not self.spec:
+                    self.fail(f"{site}:arg_space[{pname}: {el} given, "
+                              f"{pp[1]} expected]")
         saved = (self.spec, self.old_env, self.result)
         try:
             for name, e in con.let.items():
@@ -1658,13 +1684,14 @@ class Interp:
             return z3.ForAll(bvs, z3.Implies(rng, body))
         return z3.Exists(bvs, z3.And(rng, body))
 
-    def ctx_simplify(self, ctx, body):
+    def ctx_simplify(self, ctx, body, force=False):
         """Resolve, under the assumption `ctx` (+ the quantifier-free length
         facts of the path), the index-normalisation if-then-else *terms*
         that slicing introduces: If(c, a, b) becomes a when ctx => c and b
         when ctx => not c.  Semantics-preserving under ctx, which is how the
         result is used (the quantifier's range guard)."""
-        if _term_size(body) < 10 or "If(" not in str(body):
+        if (_term_size(body) < 10 and not force) or \
+                "If(" not in str(body):
             return body
         try:
             sol = z3.Solver()
@@ -1702,9 +1729,11 @@ class Interp:
                 for t in ites:
                     c = t.arg(0)
                     if c.get_id() not in cache:
-                        cache[c.get_id()] = True if implied(c) else (
-                            False if implied(z3.Not(c)) else None)
-                    d = cache[c.get_id()]
+                        # (the term is kept with the entry so that its id
+                        # cannot be re-used by a later, different condition)
+                        cache[c.get_id()] = (True if implied(c) else (
+                            False if implied(z3.Not(c)) else None), c)
+                    d = cache[c.get_id()][0]
                     if d is True:
                         pairs.append((t, t.arg(1)))
                     elif d is False:
